@@ -72,6 +72,18 @@ def runners(st):
         R['x86'] = lambda vals, ctx: x86prog.run(a['text'], vals, ctx)
     elif 'panic' in a:
         st['raw'].setdefault('panic', {'stage': 'x86_64 code generation', 'msg': a['panic']})
+    asm = st['raw'].get('asm') if isinstance(st['raw'].get('asm'), dict) else {}
+    if 'text' in asm.get('aarch64', {}):
+        import x86prog
+        ta = asm['aarch64']['text']
+        R['aarch64'] = lambda vals, ctx: x86prog.run(ta, vals, ctx, isa_name='aarch64')
+    if 'text' in asm.get('rv64', {}):
+        import x86prog
+        tr = asm['rv64']['text']
+        n = asm['rv64'].get('nargs', 0)
+        temps = e0mod.shared().tempmap('rv64', max(n, 1))
+        pregs = [temps[i][1]['reg'] for i in range(n)]
+        R['rv64'] = lambda vals, ctx: x86prog.run(tr, vals, ctx, isa_name='rv64', param_regs=pregs)
     return R
 
 
@@ -82,7 +94,7 @@ def stage_item(item):
     t0 = time.time()
     out = {'name': item['name'], 'pairs': item['pairs'], 'results': {}, 'status': 'ok'}
     try:
-        st = load(item, want_asm=any('x86' in p_ for p_ in item['pairs']))
+        st = load(item, want_asm=any(q in ('x86', 'aarch64', 'rv64') for p_ in item['pairs'] for q in p_))
     except Exception as e:
         out.update(status='error', what=f"load: {type(e).__name__}: {e}")
         return out
@@ -104,20 +116,34 @@ def stage_item(item):
     b = item.get('budgets') or budgets()
     for a_, b_ in item['pairs']:
         if a_ not in R or b_ not in R:
+            if b_ in ('aarch64', 'rv64', 'x86'):
+                out['results'][f"{a_}->{b_}"] = {'skipped': 'no code for this back end (capacity / unsupported statement)'}
+                continue
             if 'panic' in raw:
                 out['results'][f"{a_}->{b_}"] = {'skipped': f"stage panicked: {raw['panic']}"}
                 out['status'] = 'panic'
             continue
-        res = product.product(R[a_], R[b_], n, max_steps=b['max_steps'] * (10 if b_ == 'x86' else 1), max_paths=b['max_paths'],
-                              result_bits=8 if b_ == 'x86' else 64,
+        res = product.product(R[a_], R[b_], n, max_steps=b['max_steps'] * (10 if b_ in ('x86', 'aarch64', 'rv64') else 1), max_paths=b['max_paths'],
+                              result_bits=8 if b_ in ('x86', 'aarch64') else 64,
                               time_budget=b.get('time_budget', 60.0), timeout_ms=b.get('timeout_ms', 3000))
         confirmed = []
         for v in res['violations']:
-            ok, detail = product.confirm(R[a_], R[b_], v['args'], b['max_steps'] * 100, result_bits=8 if b_ == 'x86' else 64)
+            ok, detail = product.confirm(R[a_], R[b_], v['args'], b['max_steps'] * 100, result_bits=8 if b_ in ('x86', 'aarch64') else 64)
+            if ok and b_ == 'x86':
+                # replay on the real machine: assemble the emitted text, link the real driver and io.c, run with the model's arguments
+                nat = native_replay(st, v['args'], detail)
+                v['native'] = nat
+                if nat.get('agrees_with_source'):
+                    ok = False      # the native run behaves like the source: the symbolic model is wrong, not the compiler
             v['reproduced'] = ok
             v['replay'] = detail
             confirmed.append(ok)
         res['n_violations'] = len(res['violations'])
+        if a_ != 'fun' and item.get('twin') and any('reference machine stuck' in w for w in res['inconclusive']):
+            # the input of this stage is already ill-formed (upstream capture defect on a program with name reuse): the
+            # stage's precondition does not hold; the twin with all binders renamed apart is validated instead
+            res['inconclusive'] = [w for w in res['inconclusive'] if 'reference machine stuck' not in w]
+            out['upstream_defect'] = True
         out['results'][f"{a_}->{b_}"] = res
         if res['violations']:
             out['status'] = 'violation' if any(confirmed) else 'unreproduced'
@@ -128,17 +154,22 @@ def stage_item(item):
         if probs:
             out['uniqueness'] = probs[:5]
             out['status'] = 'violation'
-    if item.get('per_definition') and 'linearized' in st:
+    if item.get('per_definition') and 'linearized' in st and not out.get('upstream_defect'):
         out['per_definition'] = per_definition(st['linearized'], b)
         if out['per_definition']['violations'] and out['status'] == 'ok':
             out['status'] = 'violation'
     out['secs'] = round(time.time() - t0, 2)
     if 'src' in item:
         out['src'] = item['src']
-    if out['status'] == 'violation' and item.get('twin'):
-        # classification aid: does the same program with the inner binder renamed apart pass?
-        tw = stage_item({'name': item['name'] + '#twin', 'src': item['twin'], 'pairs': item['pairs'], 'budgets': item.get('budgets')})
+    if (out['status'] == 'violation' or out.get('upstream_defect')) and item.get('twin'):
+        # classification aid: does the same program with the binders renamed apart pass?
+        tw = stage_item({'name': item['name'] + '#twin', 'src': item['twin'], 'pairs': item['pairs'], 'budgets': item.get('budgets'),
+                         'per_definition': item.get('per_definition'), 'uniqueness': item.get('uniqueness')})
         out['twin_status'] = tw['status']
+        if out.get('upstream_defect') and out['status'] == 'ok':
+            # report the twin's result in place of the skipped program
+            tw['name'] = item['name'] + '#twin(renamed apart; original skipped: upstream capture defect)'
+            return tw
     return out
 
 
@@ -236,17 +267,22 @@ def run_tv(pid, items, rule, key_fn=None, pre=None):
 
 def gen_items(tier, which):
     import funprogs
+    import funrand
     ps = funprogs.effect_sequenced(tier) if which == 'sequenced' else funprogs.all_programs(tier)
+    # typed random programs: a fixed seed range is part of every run; VERIF_SEED adds further ones
+    n = 300 if tier == 'quick' else 3000
+    seeds = list(range(n)) + [1000003 * (fw.seed() + 1) + i for i in range(n // 3)]
+    ps = ps + funrand.programs('sequenced' if which == 'sequenced' else 'all', seeds, 3)
+    if tier != 'quick':
+        ps = ps + funrand.programs('sequenced' if which == 'sequenced' else 'all', seeds[:600], 4)
     return [{'name': p['name'], 'src': p['src'], 'twin': p.get('twin')} for p in ps]
 
 
 def c02_key(r, k, v):
     """role key: a capture shows up only with name reuse; the renamed-apart twin decides"""
-    nm = r['name']
-    if nm.startswith('reuse/') and r.get('twin_status') == 'ok':
-        parts = nm.split('/')
-        inner = {'tupclause': 'clause'}.get(parts[2], parts[2])
-        return f"fun2core/capture/binder-under-continuation/outer={parts[1]}/inner={inner}"
+    if r.get('twin_status') == 'ok':
+        # the failure disappears when every binder is renamed apart: an instance of the missing capture avoidance
+        return "fun2core/capture/shadowing-dependent"
     return None
 
 
@@ -332,6 +368,29 @@ def c05():
     items += direct
     return run_tv('C05', items, "AxCut programs produced by the pipeline for the C02-C04 sets; AxM(named) x AxM(positional) where the positional "
                   "machine enforces the exact-environment discipline of every statement (kind, type, position) on every explored path")
+
+
+def native_replay(st, args, detail):
+    import native, tempfile, shutil
+    E = e0mod.shared()
+    work = tempfile.mkdtemp(prefix='c01r_')
+    try:
+        a = st['raw']['asm']['x86_64']
+        cd = E.req({'cmd': 'cdriver', 'nargs': a['nargs'], 'dir': work})
+        exe, err = native.build(a['text'], cd['driver'], cd['io'], work)
+        if exe is None:
+            return {'error': err}
+        so, rc = native.run(exe, [to_s(x & M64) for x in args])
+        ref = detail.get('reference') or {}
+        want_out = ''.join(str(e[2]) + ('\n' if e[1] else '') for e in ref.get('events', []))
+        want_rc = (ref.get('result') or 0) & 255
+        got = so.decode('latin1') if so is not None else None
+        return {'stdout': got, 'exit': rc, 'source_stdout': want_out, 'source_exit': want_rc,
+                'agrees_with_source': got == want_out and rc == want_rc}
+    except Exception as e:
+        return {'error': f"{type(e).__name__}: {e}"}
+    finally:
+        shutil.rmtree(work, ignore_errors=True)
 
 
 def expected_of(path):
